@@ -54,7 +54,7 @@ def _validate(vtype, val, name):
     if getattr(vtype, '__origin__', None) in [list, tuple]:
         itype = vtype.__args__[0]
         if itype != func_xltypes.XlArray:
-            val = flatten(val)
+            val = flatten(val, numbers_only=itype == func_xltypes.XlNumber)
             # Items that cannot be converted are skipped, but errors are
             # not: they propagate, the first one winning.
             if getattr(itype, '__origin__', None) != typing.Union:
@@ -121,16 +121,30 @@ def validate_args(func):
     return validate
 
 
-def flatten(values):
-    """Fully recursive flattening."""
+def flatten(values, numbers_only=False):
+    """Fully recursive flattening.
+
+    `numbers_only`: the values are wanted as numbers. Text found in a range
+    that does not spell a number ("n/a", "true", "2020-01-01") is ignored
+    there, as Excel does - it is not a number, whatever a conversion would
+    make of it.
+    """
+    def cells(array):
+        if not numbers_only:
+            return array.flat
+        return [
+            value for value in array.flat
+            if not (isinstance(value, (str, func_xltypes.Text))
+                    and not func_xltypes.Text.numeric_text.match(str(value)))]
+
     flat = []
     if isinstance(values, func_xltypes.Array):
-        values = values.flat
+        values = cells(values)
     for value in values:
         if isinstance(value, func_xltypes.Array):
-            flat.extend(value.flat)
+            flat.extend(cells(value))
         elif isinstance(value, (list, tuple)):
-            flat.extend(flatten(value))
+            flat.extend(flatten(value, numbers_only))
         else:
             flat.append(value)
     return flat
